@@ -457,6 +457,13 @@ func (ex *Exec) evalBin(st *State, x *EBin, env *Env, cl *Clause) Value {
 	switch x.Op {
 	case "&&", "||", "==>", "<==>":
 		l := ex.evalBool(st, x.L, env, cl)
+		// a literally false guard: the right operand may not even be well defined (chansent(i) without a send)
+		if l.IsFalse() && (x.Op == "==>" || x.Op == "&&") {
+			if x.Op == "==>" {
+				return True
+			}
+			return False
+		}
 		// short-circuit structure is irrelevant for terms, but facts generated while
 		// evaluating the right operand hold only under the left one: keep them global
 		// (they are type-range facts about heap reads).
@@ -626,6 +633,23 @@ func (ex *Exec) evalCall(st *State, c *ECall, env *Env, cl *Clause) Value {
 		}
 		// deterministic term (the executor may re-evaluate): rowview(r, o)[k] == r[o + k] (builtin axiom)
 		return App("rowview", SArr, Select(h, sl.Ref), sl.Off)
+	case "chansends":
+		// number of channel sends executed so far on this path (ghost)
+		if g, ok := st.ghost["$sends"].(*VTuple); ok {
+			return IntLit(int64(len(g.Vals)))
+		}
+		return IntLit(0)
+	case "chansent":
+		// chansent(i): the i-th value sent on a channel on this path (a dummy value of the same shape as
+		// ... nothing when there is no such send: the clause must guard on chansends())
+		i, ok := ex.evalTerm(st, c.Args[0], env, cl).Int64()
+		if !ok {
+			ex.evalFail(cl, "chansent needs a constant index")
+		}
+		if g, ok := st.ghost["$sends"].(*VTuple); ok && int(i) < len(g.Vals) {
+			return g.Vals[i]
+		}
+		return nil
 	case "sameblock":
 		// sameblock(a, b): two slices are views of the same allocation (share memory)
 		a := ex.evalIn(st, c.Args[0], env, cl)
